@@ -28,20 +28,22 @@ structure Ev (b N : Nat) (st st' : St) : Prop where
   rawNew : ∀ a : Nat, a ∈ st'.raw → a ∈ st.raw ∨ st.cells.length ≤ a     -- no existing cell becomes raw
   rawKeep : ∀ a : Nat, a < N → a ∈ st.raw → a ∈ st'.raw                   -- nobody seals a cell below `N`
   inv : Inv b st → Inv b st'
+  /-- the ghost flag "the run left the modelled fragment" is never reset -/
+  unmodKeep : st.unmod = true → st'.unmod = true
 
 theorem Ev.refl {b N : Nat} (h : b ≤ N) (st : St) : Ev b N st st :=
-  ⟨h, Nat.le_refl _, fun _ _ => rfl, fun _ h => h, fun _ h => Or.inl h, fun _ _ h => h, fun h => h⟩
+  ⟨h, Nat.le_refl _, fun _ _ => rfl, fun _ h => h, fun _ h => Or.inl h, fun _ _ h => h, fun h => h, fun h => h⟩
 
 theorem Ev.trans {b N st1 st2 st3} (h1 : Ev b N st1 st2) (h2 : Ev b N st2 st3) : Ev b N st1 st3 :=
   ⟨h1.bN, Nat.le_trans h1.len h2.len, fun l hl => (h2.frame l hl).trans (h1.frame l hl),
    fun a h => h2.log a (h1.log a h),
    fun a h => (h2.rawNew a h).elim (h1.rawNew a) (fun hl => Or.inr (Nat.le_trans h1.len hl)),
    fun a ha h => h2.rawKeep a ha (h1.rawKeep a ha h),
-   fun h => h2.inv (h1.inv h)⟩
+   fun h => h2.inv (h1.inv h), fun h => h2.unmodKeep (h1.unmodKeep h)⟩
 
 theorem Ev.weaken {b N N' st st'} (h : Ev b N st st') (hN : N' ≤ N) (hb : b ≤ N') : Ev b N' st st' :=
   ⟨hb, h.len, fun l hl => h.frame l (Nat.lt_of_lt_of_le hl hN), h.log, h.rawNew,
-   fun a ha => h.rawKeep a (Nat.lt_of_lt_of_le ha hN), h.inv⟩
+   fun a ha => h.rawKeep a (Nat.lt_of_lt_of_le ha hN), h.inv, h.unmodKeep⟩
 
 theorem OKv.mono {b N st st' v} (h : Ev b N st st') (hv : OKv b st v) :
     OKv b st' v := by
